@@ -80,10 +80,13 @@ def get_fingerprinted_hostname(url, infer_redirection=True, strip_suffix=False):
 
 
 def fingerprint_url(url, unsplit=True, strip_suffix=False, platform_aware=False):
-    url = url.lower()
+    # NOTE: normalizing first, then lower-casing and normalizing again (some
+    # rules are case-sensitive and escapes hide capitals): two urls with the
+    # same normalized form thus always get the same fingerprint
+    url = normalize_url(url, platform_aware=platform_aware)
 
     splitted = normalize_url(
-        url,
+        url.lower(),
         unsplit=False,
         query_item_filter=lang_query_item_filter,
         platform_aware=platform_aware,
